@@ -236,6 +236,11 @@ Section Norm.
     intros bc. unfold check_noalloc. rewrite (all_active_norm bc). destruct bc; reflexivity.
   Qed.
 
+  Lemma check_nostd_attr_norm : forall bc, check_nostd_attr g bc = check_nostd_attr g (norm_bc bc).
+  Proof.
+    intros bc. unfold check_nostd_attr. rewrite <- (has_no_std_norm bc). destruct bc; reflexivity.
+  Qed.
+
   Lemma check_gates_norm : forall bc, check_gates g bc = check_gates g (norm_bc bc).
   Proof.
     intros bc. unfold check_gates. rewrite <- (gates_norm bc). destruct bc; reflexivity.
@@ -246,13 +251,16 @@ End Norm.
 
 Lemma check_all_spec : forall g, check_all g = true ->
   graph_wf g = true /\ check_manifest g = true /\
-  forall bc, check_nostd g bc = true /\ check_noalloc g bc = true /\ check_gates g bc = true.
+  forall bc, check_nostd g bc = true /\ check_noalloc g bc = true /\ check_gates g bc = true
+             /\ check_nostd_attr g bc = true.
 Proof.
   intros g H. unfold check_all in H. apply andb_prop in H. destruct H as [H Hc].
   apply andb_prop in H. destruct H as [Hwf Hm]. split; [exact Hwf|]. split; [exact Hm|].
   intros bc. rewrite forallb_forall in Hc. specialize (Hc (norm_bc bc) (norm_in_all_configs bc)).
-  apply andb_prop in Hc. destruct Hc as [Hc Hg]. apply andb_prop in Hc. destruct Hc as [Hn Ha].
-  rewrite (check_nostd_norm g Hwf bc), (check_noalloc_norm g Hwf bc), (check_gates_norm g Hwf bc). auto.
+  apply andb_prop in Hc. destruct Hc as [Hc Hx]. apply andb_prop in Hc. destruct Hc as [Hc Hg].
+  apply andb_prop in Hc. destruct Hc as [Hn Ha].
+  rewrite (check_nostd_norm g Hwf bc), (check_noalloc_norm g Hwf bc), (check_gates_norm g Hwf bc),
+    (check_nostd_attr_norm g Hwf bc). auto.
 Qed.
 
 Lemma all_active_spec : forall g bc p, all_active g bc p = true ->
@@ -362,7 +370,26 @@ Proof. intros bc i m. exact (test_module_inactive _ crate_wf bc i m). Qed.
 
 Lemma gates_hold : forall bc, bc_nightly bc = false -> active_feature_gates crate_graph bc = [].
 Proof.
-  intros bc Hn. destruct (proj2 (proj2 (check_all_spec _ crate_check)) bc) as [_ [_ Hg]].
+  intros bc Hn. destruct (proj2 (proj2 (check_all_spec _ crate_check)) bc) as [_ [_ [Hg _]]].
   unfold check_gates in Hg. rewrite Hn in Hg. cbn [orb] in Hg.
   destruct (active_feature_gates crate_graph bc); [reflexivity | discriminate Hg].
+Qed.
+
+(* `#![no_std]` is in force exactly when the cargo feature `std` is off. *)
+Lemma nostd_exact_holds : forall bc, has_no_std crate_graph bc = negb (bc_std bc).
+Proof.
+  intros bc. destruct (proj2 (proj2 (check_all_spec _ crate_check)) bc) as [_ [_ [_ Hx]]].
+  unfold check_nostd_attr in Hx. apply Bool.eqb_prop. exact Hx.
+Qed.
+
+(* The only `extern crate` declaration compiled in any configuration names `core`: neither `alloc` nor `std` nor
+   any other crate is pulled into the extern prelude, with or without cfg(feature = "std"). *)
+Lemma extern_crate_holds : forall bc it, In it (cg_items crate_graph) -> item_active crate_graph bc it = true ->
+  it_kind it = IExternCrate -> it_name it = "core".
+Proof.
+  intros bc it Hin Hact Hk. destruct (noalloc_holds bc it Hin Hact) as [Hc _].
+  unfold classify_item in Hc. rewrite Hk in Hc.
+  destruct (String.eqb (it_name it) "core") eqn:E; [apply String.eqb_eq; exact E|].
+  destruct (String.eqb (it_name it) "alloc"); [destruct Hc|].
+  destruct (String.eqb (it_name it) "std"); destruct Hc.
 Qed.
